@@ -1,10 +1,18 @@
 package main
 
-// Anchors: rules find their entry points by function name. A private function that is merely renamed
-// keeps its package, receiver and signature; the table below (generated from the pinned tree with
-// `bklcheck -dump anchors`) lets the loader recognise that case and keep addressing the function by the
-// name the rules know. Only an unambiguous match is accepted: exactly one function that is not in the
-// table has the signature of exactly one table entry that is missing from the tree.
+// Anchors: rules find their entry points by function name and address parameters by name and call arguments by
+// position. A private function that is renamed, turned into a method of its first parameter's type (or back),
+// or whose parameters are renamed or reordered keeps the *types* it works on. The table below (generated from
+// the pinned tree with `bklcheck -dump anchors`) records, per function, the parameter names and types
+// (receiver first) and the results; the loader uses it
+//   - to keep addressing a function that disappeared under its pinned name, when exactly one new function of the
+//     same package has the same shape (three passes: same receiver and ordered parameter types; receiver counted
+//     as first parameter; parameter types as a multiset with private defined non-struct types unfolded). When
+//     several functions of one shape were renamed together they are paired by name similarity, mutual best only;
+//   - to give every parameter the name the rules know it by (matched by type first, then by name, then by order);
+//   - to present the arguments of a call to such a function in the pinned parameter order (frozenArgOrder), so
+//     that positional matchers survive a reordering.
+// Only unambiguous matches are accepted; anything else leaves the rule UNDECIDED, never silently passing.
 
 import (
 	_ "embed"
@@ -19,76 +27,240 @@ import (
 //go:embed anchors.json
 var anchorsJSON []byte
 
-func sigKey(fn *ssa.Function) string {
-	q := func(p *types.Package) string { return p.Path() }
-	return types.TypeString(fn.Signature, q)
+func typeQ(p *types.Package) string { return p.Path() }
+
+// normType: private defined types of the repository whose underlying type is not a struct or interface are
+// unfolded (type docSet []*Document is, for matching, []*Document).
+func normType(t types.Type) string {
+	switch tt := t.(type) {
+	case *types.Named:
+		if tt.Obj() != nil && tt.Obj().Pkg() != nil && isRepoPkgPath(tt.Obj().Pkg().Path()) && !tt.Obj().Exported() {
+			switch tt.Underlying().(type) {
+			case *types.Struct, *types.Interface:
+			default:
+				return types.TypeString(tt.Underlying(), typeQ)
+			}
+		}
+	case *types.Pointer:
+		if n, ok := tt.Elem().(*types.Named); ok {
+			_ = n
+		}
+	}
+	return types.TypeString(t, typeQ)
+}
+
+func tupleTypes(t *types.Tuple, variadic bool, norm bool) []string {
+	var parts []string
+	for i := 0; i < t.Len(); i++ {
+		var ts string
+		if norm {
+			ts = normType(t.At(i).Type())
+		} else {
+			ts = types.TypeString(t.At(i).Type(), typeQ)
+		}
+		if variadic && i == t.Len()-1 {
+			ts = "..." + strings.TrimPrefix(ts, "[]")
+		}
+		parts = append(parts, ts)
+	}
+	return parts
+}
+
+// paramTypes: the types of fn's parameters, receiver first.
+func paramTypes(fn *ssa.Function, norm bool) []string {
+	var out []string
+	if r := fn.Signature.Recv(); r != nil {
+		if norm {
+			out = append(out, normType(r.Type()))
+		} else {
+			out = append(out, types.TypeString(r.Type(), typeQ))
+		}
+	}
+	return append(out, tupleTypes(fn.Signature.Params(), fn.Signature.Variadic(), norm)...)
+}
+
+func resultTypes(fn *ssa.Function) string {
+	return strings.Join(tupleTypes(fn.Signature.Results(), false, false), ", ")
 }
 
 type anchorFile struct {
-	Sig    map[string]string   `json:"sig"`    // function name -> signature
-	Params map[string][]string `json:"params"` // function name -> parameter names (receiver first), as on the pinned tree
+	Params  map[string][]string `json:"params"`  // function name -> parameter names (receiver first), as on the pinned tree
+	PTypes  map[string][]string `json:"ptypes"`  // function name -> parameter types (receiver first)
+	Results map[string]string   `json:"results"` // function name -> result types
+	Method  map[string]bool     `json:"method"`  // function name -> has a receiver
 }
 
-func loadAnchors() anchorFile {
-	var af anchorFile
-	if len(anchorsJSON) > 0 {
-		_ = json.Unmarshal(anchorsJSON, &af)
+var anchorsCache *anchorFile
+
+func loadAnchors() *anchorFile {
+	if anchorsCache != nil {
+		return anchorsCache
 	}
-	if af.Sig == nil {
-		af.Sig = map[string]string{}
+	af := &anchorFile{}
+	if len(anchorsJSON) > 0 {
+		_ = json.Unmarshal(anchorsJSON, af)
 	}
 	if af.Params == nil {
 		af.Params = map[string][]string{}
 	}
+	if af.PTypes == nil {
+		af.PTypes = map[string][]string{}
+	}
+	if af.Results == nil {
+		af.Results = map[string]string{}
+	}
+	if af.Method == nil {
+		af.Method = map[string]bool{}
+	}
+	anchorsCache = af
 	return af
 }
 
-// anchorTable: name -> signature key, for top-level functions and methods of the pinned tree.
-func anchorTable() map[string]string { return loadAnchors().Sig }
-
 func (p *Prog) dumpAnchors() anchorFile {
-	af := anchorFile{Sig: map[string]string{}, Params: map[string][]string{}}
+	af := anchorFile{Params: map[string][]string{}, PTypes: map[string][]string{}, Results: map[string]string{}, Method: map[string]bool{}}
 	for _, fn := range p.Funcs {
 		if fn.Parent() != nil || fn.Synthetic != "" && !strings.Contains(fn.Synthetic, "instance") {
 			continue
 		}
 		name := p.FuncName(fn)
-		af.Sig[name] = sigKey(fn)
 		var ps []string
 		for _, q := range fn.Params {
 			ps = append(ps, q.Name())
 		}
 		af.Params[name] = ps
+		af.PTypes[name] = paramTypes(fn, false)
+		af.Results[name] = resultTypes(fn)
+		af.Method[name] = fn.Signature.Recv() != nil
 	}
 	return af
 }
 
+// paramPerm: for every parameter of fn (receiver first) the index of the pinned parameter it stands for, or -1.
+func (p *Prog) paramPerm(fn *ssa.Function) []int {
+	if perm, ok := p.permCache[fn]; ok {
+		return perm
+	}
+	if p.permCache == nil {
+		p.permCache = map[*ssa.Function][]int{}
+	}
+	af := loadAnchors()
+	name := p.FuncName(fn)
+	fnames, ftypes := af.Params[name], af.PTypes[name]
+	perm := make([]int, len(fn.Params))
+	for i := range perm {
+		perm[i] = -1
+	}
+	if len(fnames) == 0 || len(fnames) != len(ftypes) || fn.Parent() != nil {
+		p.permCache[fn] = nil
+		return nil
+	}
+	ctypes := paramTypes(fn, false)
+	cnorm := paramTypes(fn, true)
+	if len(ctypes) != len(fn.Params) {
+		p.permCache[fn] = nil
+		return nil
+	}
+	same := func(i, j int) bool { return ctypes[i] == ftypes[j] || cnorm[i] == ftypes[j] }
+	// unchanged order
+	if len(ctypes) == len(ftypes) {
+		all := true
+		for i := range ctypes {
+			if !same(i, i) {
+				all = false
+			}
+		}
+		if all {
+			for i := range perm {
+				perm[i] = i
+			}
+			p.permCache[fn] = perm
+			return perm
+		}
+	}
+	used := make([]bool, len(ftypes))
+	// same type and same name first
+	for i, q := range fn.Params {
+		for j := range ftypes {
+			if !used[j] && same(i, j) && q.Name() == fnames[j] {
+				perm[i], used[j] = j, true
+				break
+			}
+		}
+	}
+	// then same type, in order
+	for i := range fn.Params {
+		if perm[i] >= 0 {
+			continue
+		}
+		for j := range ftypes {
+			if !used[j] && same(i, j) {
+				perm[i], used[j] = j, true
+				break
+			}
+		}
+	}
+	p.permCache[fn] = perm
+	return perm
+}
+
 // ParamName: the name the rules know a parameter by — its name on the pinned tree when the function is in the
-// anchor table (so that renaming a parameter does not detach the rules), its own name otherwise.
+// anchor table (so that renaming or reordering parameters does not detach the rules), its own name otherwise.
 func (p *Prog) ParamName(par *ssa.Parameter) string {
 	fn := par.Parent()
 	if fn == nil || fn.Parent() != nil {
 		return par.Name()
 	}
-	if p.frozenParams == nil {
-		p.frozenParams = loadAnchors().Params
-	}
-	names, ok := p.frozenParams[p.FuncName(fn)]
-	if !ok {
+	perm := p.paramPerm(fn)
+	if perm == nil {
 		return par.Name()
 	}
+	names := loadAnchors().Params[p.FuncName(fn)]
 	for i, q := range fn.Params {
-		if q == par && i < len(names) && len(names) == len(fn.Params) {
-			return names[i]
+		if q == par && i < len(perm) && perm[i] >= 0 && perm[i] < len(names) {
+			return names[perm[i]]
 		}
 	}
 	return par.Name()
 }
 
+// frozenArgOrder: the arguments of a static call to callee, in the order of the pinned parameter list. A pinned
+// parameter the function no longer has is represented by an "absent" term; arguments for new parameters follow.
+func (p *Prog) frozenArgOrder(callee *ssa.Function, args []*T) []*T {
+	perm := p.paramPerm(callee)
+	if perm == nil || len(args) != len(perm) {
+		return args
+	}
+	n := len(loadAnchors().Params[p.FuncName(callee)])
+	identity := n == len(args)
+	for i, j := range perm {
+		if i != j {
+			identity = false
+		}
+	}
+	if identity {
+		return args
+	}
+	out := make([]*T, n)
+	var extra []*T
+	for i, j := range perm {
+		if j >= 0 && j < n {
+			out[j] = args[i]
+		} else {
+			extra = append(extra, args[i])
+		}
+	}
+	for j := range out {
+		if out[j] == nil {
+			out[j] = &T{Op: "absent"}
+		}
+	}
+	return append(out, extra...)
+}
+
 // applyAliases gives a renamed function the name it had on the pinned tree.
 func (p *Prog) applyAliases() {
-	frozen := anchorTable()
-	if len(frozen) == 0 {
+	af := loadAnchors()
+	if len(af.Params) == 0 {
 		return
 	}
 	cur := map[string]*ssa.Function{}
@@ -103,36 +275,163 @@ func (p *Prog) applyAliases() {
 		}
 		return name
 	}
-	type key struct{ scope, sig string }
-	missing := map[key][]string{}
-	for name, sig := range frozen {
-		if cur[name] == nil {
-			k := key{scope(name), sig}
-			missing[k] = append(missing[k], name)
+	alias := func(fn *ssa.Function, old string) {
+		if p.alias == nil {
+			p.alias = map[*ssa.Function]string{}
 		}
+		p.alias[fn] = old
+		p.Renamed = append(p.Renamed, fn.Name()+" is addressed as "+old)
 	}
-	newcomers := map[key][]*ssa.Function{}
 	var names []string
 	for name := range cur {
 		names = append(names, name)
 	}
 	sort.Strings(names)
-	for _, name := range names {
-		if _, known := frozen[name]; known {
-			continue
-		}
-		k := key{scope(name), sigKey(cur[name])}
-		newcomers[k] = append(newcomers[k], cur[name])
+	sorted := func(xs []string) []string {
+		ys := append([]string{}, xs...)
+		sort.Strings(ys)
+		return ys
 	}
-	for k, ms := range missing {
-		ns := newcomers[k]
-		if len(ms) == 1 && len(ns) == 1 {
-			if p.alias == nil {
-				p.alias = map[*ssa.Function]string{}
+	for pass := 0; pass < 3; pass++ {
+		keyOfOld := func(name string) string {
+			pt := af.PTypes[name]
+			switch pass {
+			case 0:
+				if af.Method[name] && len(pt) > 0 {
+					pt = pt[1:]
+				}
+				return scope(name) + " | " + strings.Join(pt, ", ") + " | " + af.Results[name]
+			case 1:
+				return pkgOfName(name) + " | " + strings.Join(pt, ", ") + " | " + af.Results[name]
 			}
-			p.alias[ns[0]] = ms[0]
-			p.Renamed = append(p.Renamed, ns[0].Name()+" is addressed as "+ms[0])
+			return pkgOfName(name) + " | " + strings.Join(sorted(pt), ", ") + " | " + af.Results[name]
+		}
+		keyOfNew := func(name string, fn *ssa.Function) string {
+			switch pass {
+			case 0:
+				pt := paramTypes(fn, false)
+				if fn.Signature.Recv() != nil {
+					pt = pt[1:]
+				}
+				return scope(name) + " | " + strings.Join(pt, ", ") + " | " + resultTypes(fn)
+			case 1:
+				return pkgOfName(name) + " | " + strings.Join(paramTypes(fn, false), ", ") + " | " + resultTypes(fn)
+			}
+			return pkgOfName(name) + " | " + strings.Join(sorted(paramTypes(fn, true)), ", ") + " | " + resultTypes(fn)
+		}
+		taken := map[*ssa.Function]bool{}
+		aliased := map[string]bool{}
+		for fn, old := range p.alias {
+			taken[fn] = true
+			aliased[old] = true
+		}
+		missing := map[string][]string{}
+		for name := range af.Params {
+			if cur[name] == nil && !aliased[name] {
+				k := keyOfOld(name)
+				missing[k] = append(missing[k], name)
+			}
+		}
+		newcomers := map[string][]*ssa.Function{}
+		for _, name := range names {
+			if _, known := af.Params[name]; known || taken[cur[name]] {
+				continue
+			}
+			k := keyOfNew(name, cur[name])
+			newcomers[k] = append(newcomers[k], cur[name])
+		}
+		var keys []string
+		for k := range missing {
+			keys = append(keys, k)
+		}
+		sort.Strings(keys)
+		for _, k := range keys {
+			ms, ns := missing[k], newcomers[k]
+			sort.Strings(ms)
+			if len(ms) == 1 && len(ns) == 1 {
+				alias(ns[0], ms[0])
+				continue
+			}
+			if len(ms) == 0 || len(ns) == 0 || len(ms) != len(ns) {
+				continue
+			}
+			// several functions of one shape were renamed together: pair them by name, accepting only pairs that
+			// are each other's clear best match
+			bestNew := map[string]*ssa.Function{}
+			ok := true
+			for _, m := range ms {
+				var best *ssa.Function
+				bs, second := -1.0, -1.0
+				for _, n := range ns {
+					if sc := nameSimilarity(baseName(m), n.Name()); sc > bs {
+						best, second, bs = n, bs, sc
+					} else if sc > second {
+						second = sc
+					}
+				}
+				if best == nil || bs-second < 0.05 {
+					ok = false
+					break
+				}
+				bestNew[m] = best
+			}
+			used := map[*ssa.Function]bool{}
+			for _, n := range bestNew {
+				if used[n] {
+					ok = false
+				}
+				used[n] = true
+			}
+			if !ok {
+				continue
+			}
+			for _, m := range ms {
+				alias(bestNew[m], m)
+			}
 		}
 	}
 	sort.Strings(p.Renamed)
+	p.permCache = nil
+}
+
+// pkgOfName: "bkl.(*file).parents" -> "bkl"; "cmd/bkld.diffDoc" -> "cmd/bkld".
+func pkgOfName(name string) string {
+	if i := strings.Index(name, ".("); i >= 0 {
+		return name[:i]
+	}
+	if i := strings.LastIndex(name, "."); i >= 0 {
+		return name[:i]
+	}
+	return name
+}
+
+func baseName(name string) string {
+	if i := strings.LastIndex(name, "."); i >= 0 {
+		return name[i+1:]
+	}
+	return name
+}
+
+// nameSimilarity: 2*LCS/(len a + len b), case-insensitive.
+func nameSimilarity(a, b string) float64 {
+	a, b = strings.ToLower(a), strings.ToLower(b)
+	if len(a) == 0 || len(b) == 0 {
+		return 0
+	}
+	prev := make([]int, len(b)+1)
+	curr := make([]int, len(b)+1)
+	for i := 1; i <= len(a); i++ {
+		for j := 1; j <= len(b); j++ {
+			switch {
+			case a[i-1] == b[j-1]:
+				curr[j] = prev[j-1] + 1
+			case prev[j] >= curr[j-1]:
+				curr[j] = prev[j]
+			default:
+				curr[j] = curr[j-1]
+			}
+		}
+		prev, curr = curr, prev
+	}
+	return 2 * float64(prev[len(b)]) / float64(len(a)+len(b))
 }
